@@ -16,7 +16,7 @@ META = {
                  "the run is an injection point by construction), Exception/AssertionError symbolic, --stop symbolic, "
                  "selection symbolic in one shape, dry-run symbolic",
         "thorough": "9 shapes, <=4 scenarios, two features, pairs of injection points (k1 < k2 over Z); the three larger shapes with outcomes "
-                    "{pass, assert-fail}, no undefined steps, stop concrete, the fault position split into five intervals covering Z",
+                    "{pass, assert-fail}, no undefined steps, stop concrete, the fault position split into 5-10 intervals covering Z",
     },
     "outside": ["KeyboardInterrupt raised inside a hook (propagates by design)", "hooks that themselves call abort()/mark_skipped()",
                 "runs aborted by a step (hook expectations after an abort are not stated by the property)"],
@@ -177,7 +177,8 @@ def jobs(tier, seed):
     for name, (sh, opts) in shapes.items():
         if name in ("rule-outline", "3sc", "select2"):
             for stop in (False, True):
-                for ri, rng in enumerate([(None, 8), (8, 16), (16, 24), (24, 32), (32, None)]):
+                cuts = [8, 16, 24, 32] if name != "rule-outline" else [6, 12, 18, 24, 30, 36, 42, 48, 54]
+                for ri, rng in enumerate(zip([None] + cuts, cuts + [None])):
                     js.append(Job("hooks.%s.stop%d.k%d" % (name, stop, ri), "props.c12:h_hooks",
                                   {"shapes": sh, "opts": dict(opts, stop=stop, out_dom={"*": [0, 1]}, undef=False), "fault_range": rng},
                                   reach=REACH if (ri == 0 and not stop) else [], min_paths=15 if ri == 0 else 1, cost=1000, validate=200))
